@@ -485,7 +485,8 @@ func (s *Smr) handleReceivedVoteMsg(msg *xuperp2p.XuperMessage) error {
 	// 存入本地voteInfo内存，查看签名数量是否超过2f+1
 	var VoteLen int
 	// 注意隐式，若!ok则证明签名数量为1，此时不可能超过2f+1
-	v, ok := s.qcVoteMsgs.LoadOrStore(utils.F(voteQC.GetProposalId()), voteQC.SignInfos)
+	// only the first entry of a vote's signature list was checked (CheckVote): only that one is kept
+	v, ok := s.qcVoteMsgs.LoadOrStore(utils.F(voteQC.GetProposalId()), []*chainedBftPb.QuorumCertSign{voteQC.SignInfos[0]})
 	// 若ok=false，则仅store一个vote签名
 	VoteLen = 1
 	if ok {
